@@ -76,7 +76,9 @@ def build(d):
     cli_commit = gen_msg(d, True) if d.chance(1, 2) else None
     cli_tag = gen_msg(d, True) if d.chance(1, 3) else None
     return {"names": names, "cfg_commit": cfg_commit, "cfg_tag": cfg_tag, "cli_commit": cli_commit, "cli_tag": cli_tag,
-            "vcs": d.choice(["git", "git", "hg"]), "empty_tag_message": d.chance(1, 6)}
+            "vcs": d.choice(["git", "git", "hg"]), "empty_tag_message": d.chance(1, 6),
+            # --tag-message '' on the command line: a lightweight tag, whatever the config says
+            "cli_empty_tag": d.chance(1, 8)}
 
 
 def substitute(template, cli):
@@ -127,7 +129,9 @@ def set_up(case, tmp):
     args = ["update", "--no-fetch", "--date", "2020-06-01"]
     if case["cli_commit"] is not None:
         args += ["-c", case["cli_commit"]]
-    if case["cli_tag"] is not None and not case["empty_tag_message"]:
+    if case.get("cli_empty_tag"):
+        args += ["--tag-message", ""]
+    elif case["cli_tag"] is not None and not case["empty_tag_message"]:
         args += ["--tag-message", case["cli_tag"]]
     return args
 
@@ -139,7 +143,9 @@ def expected_messages(case):
         cm = substitute(case["cfg_commit"], False)
     else:
         cm = "bump version to " + NEW
-    if case["empty_tag_message"]:
+    if case.get("cli_empty_tag"):
+        tm = ""
+    elif case["empty_tag_message"]:
         tm = ""
     elif case["cli_tag"] is not None:
         tm = substitute(case["cli_tag"], True)
